@@ -181,6 +181,13 @@ impl PieceType for PawnType {
             let files = get_adjacent_files(ep_sq.get_file());
             for src in rank & files & pieces {
                 let dest = ep_sq.uforward(color);
+                // in check, the capture must take the checking pawn or land between checker and king
+                if T::IN_CHECK
+                    && (check_mask & (BitBoard::from_square(dest) | BitBoard::from_square(ep_sq)))
+                        == EMPTY
+                {
+                    continue;
+                }
                 if PawnType::legal_ep_move(board, src, dest) {
                     unsafe {
                         movelist.push_unchecked(SquareAndBitBoard::new(
